@@ -130,6 +130,10 @@ func runC08Seq(rc *RunCtx) *simkit.Violation {
 	}
 	steps := t.Range(2, 10)
 	var trace []string
+	assigned := map[string]map[string][]string{} // repo -> label -> every assignment since the label was (re)created
+	for _, r := range repos {
+		assigned[r] = map[string][]string{}
+	}
 	for i := 0; i < steps; i++ {
 		r := repos[t.Choose(len(repos))]
 		var name string
@@ -143,7 +147,36 @@ func runC08Seq(rc *RunCtx) *simkit.Violation {
 			ks := sortedKeys(labels[r])
 			name = ks[t.Choose(len(ks))] // act on an existing label
 		}
-		switch t.Pick(0, 0, 0, 1, 2, 3) {
+		switch t.Pick(0, 0, 0, 1, 2, 3, 4) {
+		case 4: // the versions of a label (a versioned label store keeps every assignment since the label was created)
+			curRepo = ""
+			tk, v := doOp(prop, w, cl, "versions", func() (interface{}, error) {
+				b := core.NewBundle(core.Repo(r), core.ContextStores(st), core.Logger(nopLog))
+				l := core.NewLabel(core.LabelDescriptor(model.NewLabelDescriptor(model.LabelName(name))))
+				lds, err := l.DownloadDescriptorVersions(bg, b, true)
+				var ids []string
+				for _, ld := range lds {
+					ids = append(ids, ld.BundleID)
+				}
+				return ids, err
+			})
+			if v != nil {
+				return v
+			}
+			_, live := labels[r][name]
+			switch {
+			case !live && tk.Err == nil:
+				return Viol(prop, "deleted-label-resolves", "DownloadDescriptorVersions", name, "label %q of %s is not live but has versions %v (history: %v)", name, r, tk.Result, trace)
+			case live && d.VMet.Versioned && tk.Err != nil:
+				return Viol(prop, "get-failed", "DownloadDescriptorVersions", name, "listing the versions of the live label %q of %s failed: %v (history: %v)", name, r, tk.Err, trace)
+			case live && d.VMet.Versioned:
+				got := tk.Result.([]string)
+				if strings.Join(got, ",") != strings.Join(assigned[r][name], ",") {
+					return Viol(prop, "label-wrong-target", "DownloadDescriptorVersions", name, "the versions of label %q of %s are %v, it was assigned %v since it was created (history: %v)", name, r, got, assigned[r][name], trace)
+				}
+				w.Probe("label-versions-listed")
+			}
+			continue
 		case 0: // set
 			id := bundles[r][t.Choose(len(bundles[r]))]
 			curRepo, curName = r, name
@@ -160,6 +193,7 @@ func runC08Seq(rc *RunCtx) *simkit.Violation {
 			trace = append(trace, fmt.Sprintf("set %s/%q->%s err=%v", r, name, id[len(id)-4:], tk.Err != nil))
 			if tk.Err == nil {
 				labels[r][name] = id
+				assigned[r][name] = append(assigned[r][name], id)
 				if hostile {
 					w.Probe("hostile-name-accepted")
 				}
@@ -180,6 +214,7 @@ func runC08Seq(rc *RunCtx) *simkit.Violation {
 				return Viol(prop, "delete-failed", "DeleteLabel", name, "deleting the live label %q failed: %v", name, tk.Err)
 			}
 			delete(labels[r], name)
+			delete(assigned[r], name)
 		case 2: // get
 			curRepo = ""
 			tk, v := doOp(prop, w, cl, "get", getLabelFn(st, r, name))
